@@ -493,4 +493,4 @@ def history(draw, max_len):
 def search(ctx):
     thorough = ctx.tier == "thorough"
     ctx.enumerate(enum_cases(), "every payload length 0..64 x every route/style/buffering class")
-    ctx.hypothesis(history(10000 if thorough else 2000), 4000 if thorough else 1500)
+    ctx.hypothesis(history(10000 if thorough else 2000), 15000 if thorough else 1500)
